@@ -260,75 +260,73 @@ ones the model was written against. -/
 theorem code_moves_match_model :
     Gen.Stats.addConn =
       ["if l.conns == nil | return",
-       "if l.connsLimit() | l.stats.CxRestricted.Inc",
-       "if l.connsLimit() | return",
-       "l.stats.CxTotal.Inc",
-       "l.stats.CxActive.Inc"] ∧
+      "if l.connsLimit() | l.stats.CxRestricted.Inc",
+      "if l.connsLimit() | return",
+      "l.stats.CxTotal.Inc",
+      "l.stats.CxActive.Inc"] ∧
     Gen.Stats.removeConn =
       ["if l.conns == nil | return",
-       "if !ok | return",
-       "l.stats.CxDestroyTotal.Inc",
-       "l.stats.CxActive.Dec"] ∧
+      "if !ok | return",
+      "l.stats.CxDestroyTotal.Inc",
+      "l.stats.CxActive.Dec"] ∧
     Gen.Stats.listenerStop =
       ["range conns | l.stats.CxDestroyTotal.Inc",
-       "range conns | l.stats.CxActive.Dec"] ∧
+      "range conns | l.stats.CxActive.Dec"] ∧
     Gen.Stats.handleRawConn =
       ["if !l.addConn(conn) | conn.Close",
-       "if !l.addConn(conn) | return",
-       "defer | conn.Close",
-       "defer | l.removeConn",
-       "if l.connHandleFn == nil | return",
-       "l.connHandleFn"] ∧
+      "if !l.addConn(conn) | return",
+      "defer | conn.Close",
+      "defer | l.removeConn",
+      "if l.connHandleFn == nil | return",
+      "l.connHandleFn"] ∧
     Gen.Stats.tcpHandleConn =
       ["if len(healthyHosts) == 0 | return",
-       "if err != nil | p.stats.Upstream.CxConnectFail.Inc",
-       "if err != nil | return",
-       "p.stats.Upstream.CxTotal.Inc",
-       "p.stats.Upstream.CxActive.Inc",
-       "defer | p.stats.Upstream.CxDestroyTotal.Inc",
-       "defer | p.stats.Upstream.CxActive.Dec",
-       "go | select <-host.WaitRemoved() | return",
-       "go | select <-p.quit | return",
-       "go | select <-finished | return"] ∧
+      "if err != nil | p.stats.Upstream.CxConnectFail.Inc",
+      "if err != nil | return",
+      "p.stats.Upstream.CxTotal.Inc",
+      "p.stats.Upstream.CxActive.Inc",
+      "defer | p.stats.Upstream.CxDestroyTotal.Inc",
+      "defer | p.stats.Upstream.CxActive.Dec",
+      "go | select <-host.WaitRemoved() | return",
+      "go | select <-p.quit | return",
+      "go | select <-finished | return"] ∧
     Gen.Stats.handleRequest =
       ["p.stats.Downstream.RqTotal.Inc",
-       "hook | case req.Response().Type = Error | p.stats.Downstream.RqFailureTotal.Inc",
-       "hook | default of req.Response().Type | p.stats.Downstream.RqSuccessTotal.Inc",
-       "if !req.IsValid() | return",
-       "if !ok | return",
-       "cmdStats.Total.Inc",
-       "hook | case req.Response().Type = Error | cmdStats.Error.Inc",
-       "hook | default of req.Response().Type | cmdStats.Success.Inc",
-       "hook | if latency > p.cfg.slowReqThresholdInMicros | p.stats.Counter(\"rq_slow_total\").Inc"] ∧
+      "hook | case req.Response().Type = Error | p.stats.Downstream.RqFailureTotal.Inc",
+      "hook | default of req.Response().Type | p.stats.Downstream.RqSuccessTotal.Inc",
+      "if !req.IsValid() | return",
+      "if !ok | return",
+      "cmdStats.Total.Inc",
+      "hook | case req.Response().Type = Error | cmdStats.Error.Inc",
+      "hook | default of req.Response().Type | cmdStats.Success.Inc",
+      "hook | if latency > p.cfg.slowReqThresholdInMicros | p.stats.Counter(\"rq_slow_total\").Inc"] ∧
     Gen.Stats.makeRequestToHost =
-      ["u.stats.RqTotal.Inc",
-       "req.RegisterHook",
-       "hook | if req.Response().Type == Error | u.stats.RqFailureTotal.Inc",
-       "hook | else of req.Response().Type == Error | u.stats.RqSuccessTotal.Inc",
-       "select <-u.quit | req.SetResponse",
-       "select <-u.quit | return",
-       "if err != nil | req.SetResponse",
-       "if err != nil | return",
-       "c.Send"] ∧
+      ["range reqs | u.stats.RqTotal.Inc",
+      "range reqs | req.RegisterHook",
+      "range reqs | hook | if req.Response().Type == Error | u.stats.RqFailureTotal.Inc",
+      "range reqs | hook | else of req.Response().Type == Error | u.stats.RqSuccessTotal.Inc",
+      "func | range reqs | req.SetResponse",
+      "select <-u.quit | return",
+      "if err != nil | return",
+      "c.Send"] ∧
     Gen.Stats.handleRedirection =
       ["if len(err) < 3 | req.SetResponse",
-       "if len(err) < 3 | return",
-       "case strings.ToLower(err[0]) = MOVED | u.stats.Counter(\"moved\").Inc",
-       "case strings.ToLower(err[0]) = MOVED | u.MakeRequestToHost",
-       "case strings.ToLower(err[0]) = ASK | u.MakeRequestToHost",
-       "case strings.ToLower(err[0]) = ASK | u.MakeRequestToHost",
-       "default of strings.ToLower(err[0]) | req.SetResponse",
-       "default of strings.ToLower(err[0]) | return"] ∧
+      "if len(err) < 3 | return",
+      "case strings.ToLower(err[0]) = MOVED | u.stats.Counter(\"moved\").Inc",
+      "case strings.ToLower(err[0]) = MOVED | u.MakeRequestToHost",
+      "case strings.ToLower(err[0]) = ASK | u.MakeRequestToHost",
+      "default of strings.ToLower(err[0]) | req.SetResponse",
+      "default of strings.ToLower(err[0]) | return"] ∧
     Gen.Stats.rawSetResponse =
       ["r.finishedAt = time.Now()",
-       "r.resp = v",
-       "for i := len(r.hooks) - 1; i >= 0; i-- { hook := r.hooks[i] hook(r) }",
-       "close(r.done)"] ∧
+      "r.resp = v",
+      "for i := len(r.hooks) - 1; i >= 0; i-- { hook := r.hooks[i] hook(r) }",
+      "close(r.done)"] ∧
     Gen.Stats.simpleSetResponse =
       ["r.finishedAt = time.Now()",
-       "r.resp = resp",
-       "for i := len(r.hooks) - 1; i >= 0; i-- { hook := r.hooks[i] hook(r) }",
-       "close(r.done)"] := by
+      "r.resp = resp",
+      "for i := len(r.hooks) - 1; i >= 0; i-- { hook := r.hooks[i] hook(r) }",
+      "close(r.done)"] := by
   refine ⟨rfl, rfl, rfl, rfl, rfl, rfl, rfl, rfl, rfl, rfl⟩
 
 end SamVerif.Props.C20
